@@ -390,6 +390,7 @@ def build_variants():
         V("yaml", "yaml", ["--oyaml"], ["--iyaml"], dom_yaml, hetero=True, json_typed=True),
         V("yaml-no-yarray", "yaml", ["--oyaml", "--no-yarray"], ["--iyaml"], dom_yaml, hetero=True, json_typed=True),
         V("yaml-ya", "yaml", ["--oyaml", "--ya"], ["--iyaml"], dom_yaml, hetero=True, json_typed=True),
+        V("yaml-yarray", "yaml", ["--oyaml", "--yarray"], ["--iyaml"], dom_yaml, hetero=True, json_typed=True),
     ]
     # ---------------- DKVP / DKVPX / NIDX
     ddkvp = make_dom_lines([b",", b"\n"], key_forbid=[b"="])
@@ -413,6 +414,10 @@ def build_variants():
           pyread=lambda d: C.read_dkvp_document(d)),
         V("dkvp-fs-ps-both", "dkvp", ["--dkvp", "--fs", ";", "--ps", ":"], ["--dkvp", "--fs", ";", "--ps", ":"], ddkvp2,
           hetero=True, pyread=lambda d: C.read_dkvp_document(d, fs=b";", ps=b":")),
+        V("dkvp-incr-key-reader", "dkvp", ["--odkvp"], ["--idkvp", "--incr-key"], ddkvp, hetero=True,
+          pyread=lambda d: C.read_dkvp_document(d)),
+        V("dkvp-rs-both", "dkvp", ["--dkvp", "--rs", ";"], ["--dkvp", "--rs", ";"], make_dom_lines([b",", b";", b"\n"], key_forbid=[b"="]),
+          hetero=True, pyread=lambda d: C.read_dkvp_document(d, rs=b";")),
         V("dkvpx", "dkvpx", ["-o", "dkvpx"], ["-i", "dkvpx"], dom_dkvpx, hetero=True),
         V("dkvpx-seps", "dkvpx", ["-o", "dkvpx", "--ofs", ";", "--ops", ":"], ["-i", "dkvpx", "--ifs", ";", "--ips", ":"], dom_dkvpx,
           hetero=True),
@@ -467,6 +472,8 @@ def build_variants():
         V("markdown", "markdown", ["--omd"], ["--imd"], make_dom_lines([b"\n"], no_edge_space=True), hetero=True,
           pyread=lambda d: C.read_markdown_document(d), pywrite=_w(C.write_markdown)),
         V("markdown-aligned", "markdown", ["--omd-aligned"], ["--imd"], make_dom_lines([b"\n"], no_edge_space=True), hetero=True,
+          pyread=lambda d: C.read_markdown_document(d)),
+        V("markdown-md-aligned-both", "markdown", ["--md-aligned"], ["--md-aligned"], make_dom_lines([b"\n"], no_edge_space=True), hetero=True,
           pyread=lambda d: C.read_markdown_document(d)),
         V("markdown-long-names", "markdown", ["--omarkdown"], ["--imarkdown"], make_dom_lines([b"\n"], no_edge_space=True), hetero=True,
           pyread=lambda d: C.read_markdown_document(d)),
